@@ -3,6 +3,7 @@
 The agent gets only the property's text and a scratch worktree - nothing from /verif."""
 import json, sys
 pid, wt, out, n = sys.argv[1], sys.argv[2], sys.argv[3], int(sys.argv[4]) if len(sys.argv) > 4 else 3
+wave2 = len(sys.argv) > 5 and sys.argv[5] == "wave2"
 for l in open('/verif/properties.jsonl'):
     p = json.loads(l)
     if p['id'] == pid:
@@ -24,6 +25,14 @@ Your task: produce {n} different, independent source changes to the library (fil
  (c) it is a realistic change a developer could plausibly make (a refactor gone slightly wrong, an 'optimisation', a dropped guard, a swapped argument, an off-by-one, a changed table entry, reordered statements ...), small (a few lines);
  (d) it needs something SPECIFIC to manifest: a particular interleaving, a crash or fault at a particular point, a multi-step sequence of operations, an unusual input, or two cooperating sites that each look fine alone - NOT something ordinary use would expose at once.
  Make the {n} changes touch different mechanisms / code sites where possible.
+""" + ("""
+ This is a SECOND round: an earlier round already produced the most obvious regressions (a dropped guard or a flipped comparison inside the
+ one function that most directly implements the property). Go for LESS obvious ones this time, for example: a change in a collaborator or helper
+ module the property relies on (session.py, journaler.py, message.py, codec.py, errors.py, fixtags.py, msgtype.py, protocol/common.py, protocol/*.py),
+ a changed default argument / constant / table entry / enum value / regular expression, a caching or 'performance' shortcut, two cooperating edits
+ at different sites that each look harmless alone, an exception handler that swallows or converts too much, an edit that only changes behaviour
+ after a particular earlier operation, state left behind across reconnects or across two instances sharing something. Avoid purely cosmetic sites.
+""" if wave2 else "") + f"""
 
 For each change k = 1..{n} create the directory {out}/m<k>/ containing:
   patch.diff  - `git diff` of the change against the clean worktree (library sources only)
